@@ -19,7 +19,7 @@ UniversalOf(t) ==
     [] t.k = "enum" -> 10 [] t.k = "seq" -> (IF t.set THEN 17 ELSE 16) [] t.k = "seqof" -> 16
     [] t.k = "str" -> (CASE t.cs = "utf8" -> 12 [] t.cs = "num" -> 18 [] t.cs = "prt" -> 19 [] t.cs = "ia5" -> 22 [] t.cs = "vis" -> 26)
 
-TagLess(a, b) == a[1] < b[1] \/ (a[1] = b[1] /\ a[2] < b[2])
+\* (TagLess, the canonical order of tags, is X691!TagLess: the CHOICE index needs it, too)
 
 RECURSIVE TypeTag(_)
 TypeTag(t) ==
